@@ -71,6 +71,9 @@ func (d *dir) newest() int {
 
 func (d *dir) oldest() int {
 	if d.Large {
+		if d.GapStart == 1 && d.GapLen > 0 && d.GapLen < d.N {
+			return d.GapLen + 1 // the run of missing files starts at 1 (it may be millions long)
+		}
 		for s := 1; s <= d.N; s++ {
 			if d.present(s) {
 				return s
@@ -89,14 +92,35 @@ func (d *dir) count() int {
 }
 
 // ts is the time state s was (or would have been) written: strictly
-// increasing in s. Changeset states carry nanoseconds.
+// increasing in s. Changeset states carry nanoseconds; every seventh has none
+// (".000000000"), others 1 ns (leading zeros), 999999999 ns and 120 ms
+// (trailing zeros). Interval states are stamped 0..29 s (hour and day states
+// also 0..49 min) after the full step, so that the seconds and minutes fields
+// of the file are not always zero; neighbouring stamps stay >= 31 s apart, the
+// query positions "1 s before / after" stay strictly between the states.
 func (d *dir) ts(s int) time.Time {
 	// plain second arithmetic: 2 000 000 days do not fit a time.Duration
-	var nanos int64
+	var nanos, off int64
 	if d.Kind == kChangesets {
-		nanos = (int64(s) * 123456789) % 1000000000
+		switch s % 7 {
+		case 0:
+			nanos = 0
+		case 3:
+			nanos = 1
+		case 5:
+			nanos = 999999999
+		case 6:
+			nanos = 120000000
+		default:
+			nanos = (int64(s) * 123456789) % 1000000000
+		}
+	} else {
+		off = (int64(s) * 7) % 30
+		if d.Kind != kMinute {
+			off += 60 * ((int64(s) * 11) % 50)
+		}
 	}
-	return time.Unix(kindBase[d.Kind].Unix()+int64(s)*int64(kindStep[d.Kind]/time.Second), nanos).UTC()
+	return time.Unix(kindBase[d.Kind].Unix()+int64(s)*int64(kindStep[d.Kind]/time.Second)+off, nanos).UTC()
 }
 
 // answer is the property's result for a lookup at t: the first existing state
@@ -112,6 +136,9 @@ func (d *dir) answer(t time.Time) int {
 		} else {
 			hi = m
 		}
+	}
+	if d.Large && lo >= d.GapStart && lo < d.GapStart+d.GapLen {
+		lo = d.GapStart + d.GapLen // step over the run of missing files at once
 	}
 	for s := lo; s <= d.N; s++ {
 		if d.present(s) {
@@ -193,8 +220,39 @@ func (d *dir) parseStateURL(u string) (seq uint64, current, ok bool) {
 	return v, false, true
 }
 
-func txnMax(s uint64) int        { return 836000000 + int(s%1000000)*7 }
-func txnMaxQueried(s uint64) int { return 835000000 + int(s%1000000)*7 }
+// The planet server has written interval state files in several layouts; the
+// model rotates through them by sequence number:
+//
+//	0  osmosis (--replicate-apidb), keys in the order of the library's example
+//	1  the same keys in the opposite order (a java properties file has no
+//	   defined key order; txnMax now comes BEFORE txnMaxQueried)
+//	2  osmdbt (minutely diffs since 2020): comment, sequenceNumber, timestamp
+//	   only -- no transaction keys at all
+//	3  merged files (hour, day): transaction keys present with value 0 / empty
+const nLayouts = 4
+
+func intervalLayout(s uint64) int { return int(s % nLayouts) }
+
+// txnMax / txnMaxQueried: what State.TxnMax / TxnMaxQueried have to be for the
+// state file of sequence s (0 when the layout has no such key or writes 0).
+// Postgres transaction ids as osmosis reports them pass 2^31 and 2^32: every
+// fifth file carries ids just above 2^32, every fifth just above 2^31.
+func txnMax(s uint64) int        { return txnValue(s, 836000000) }
+func txnMaxQueried(s uint64) int { return txnValue(s, 835000000) }
+
+func txnValue(s uint64, base int64) int {
+	if l := intervalLayout(s); l == 2 || l == 3 {
+		return 0
+	}
+	v := base + int64(s%1000000)*7
+	switch s % 5 {
+	case 1:
+		v += 1 << 32
+	case 2:
+		v += 1 << 31
+	}
+	return int(v)
+}
 
 // intervalTime renders a timestamp the way osmosis writes it into state.txt
 // (a java properties file: the colons are escaped).
@@ -237,15 +295,31 @@ func stateBodyNumbered(kind int, s uint64, t time.Time, numbered bool) []byte {
 		}
 		return []byte("---\nlast_run: " + changesetTime(t, s%2 == 0) + "\nsequence: " + strconv.FormatUint(inside, 10) + "\n")
 	}
-	var b strings.Builder
-	b.WriteString("#" + t.Add(time.Second).Format("Mon Jan 02 15:04:05 UTC 2006") + "\n")
-	b.WriteString("txnMaxQueried=" + strconv.Itoa(txnMaxQueried(s)) + "\n")
-	b.WriteString("sequenceNumber=" + strconv.FormatUint(s, 10) + "\n")
-	b.WriteString("timestamp=" + intervalTime(t) + "\n")
-	b.WriteString("txnReadyList=\n")
-	b.WriteString("txnMax=" + strconv.Itoa(txnMax(s)) + "\n")
-	b.WriteString("txnActiveList=" + strconv.Itoa(txnMax(s)-3) + "\n")
-	return []byte(b.String())
+	comment := "#" + t.Add(time.Second).Format("Mon Jan 02 15:04:05 UTC 2006")
+	seqLine := "sequenceNumber=" + strconv.FormatUint(s, 10)
+	timeLine := "timestamp=" + intervalTime(t)
+	var lines []string
+	switch intervalLayout(s) {
+	case 0, 1:
+		lines = []string{
+			"txnMaxQueried=" + strconv.Itoa(txnMaxQueried(s)),
+			seqLine,
+			timeLine,
+			"txnReadyList=",
+			"txnMax=" + strconv.Itoa(txnMax(s)),
+			"txnActiveList=" + strconv.Itoa(txnMax(s)-3) + "," + strconv.Itoa(txnMax(s)-1),
+		}
+		if intervalLayout(s) == 1 {
+			for i, j := 0, len(lines)-1; i < j; i, j = i+1, j-1 {
+				lines[i], lines[j] = lines[j], lines[i]
+			}
+		}
+	case 2:
+		lines = []string{seqLine, timeLine}
+	case 3:
+		lines = []string{seqLine, "txnMaxQueried=0", "txnActiveList=", "txnReadyList=", "txnMax=0", timeLine}
+	}
+	return []byte(comment + "\n" + strings.Join(lines, "\n") + "\n")
 }
 
 // situation is the coarse class of a lookup used in violation keys. It is a
